@@ -236,11 +236,8 @@ def wire_len(n):
     return sum(len(l) + 1 for l in n) + 1
 
 
-def oracle_c07(c, a, b):
-    w = c.split(" ")
-    if w[0] != "rename":
-        return None
-    p, traw, sraw, sfx = _hex(w[1]), _hex(w[2]), _hex(w[3]), w[4] == "1"
+def rename_rules(p, traw, sraw, sfx, out_kind, o, what="rename"):
+    """C07 on one renaming: p = packet before, o = bytes after (None unless out_kind == "ok")"""
     ok_in, _ = refdec.is_wellformed(p)
     if not ok_in:
         return None
@@ -275,15 +272,14 @@ def oracle_c07(c, a, b):
                 rd = ("soa", tuple(lower(rn(rd[1]))), tuple(lower(rn(rd[2]))), rd[3])
             es.append((tuple(lower(rn(r.name))), r.typ, r.cls, r.ttl, rd))
         exp.append(tuple(es))
-    if outcome(a) == "err":
+    if out_kind == "err":
         if too_long:
             return None
-        return "rename failed (%s) although no rewritten name exceeds 255 bytes" % a
-    if outcome(a) != "ok":
-        return "rename did not return normally: %s" % a[:60]
+        return "%s failed although no rewritten name exceeds 255 bytes" % what
+    if out_kind != "ok":
+        return "%s did not return normally" % what
     if too_long:
-        return "rename produced a packet although a rewritten name exceeds 255 bytes"
-    o = _hex(a.split(" ")[1])
+        return "%s produced a packet although a rewritten name exceeds 255 bytes" % what
     ok_out, why = refdec.is_wellformed(o)
     if not ok_out:
         return "renamed packet is not accepted: %s" % why
@@ -292,7 +288,41 @@ def oracle_c07(c, a, b):
     want = (mi.header[:4], tuple(mi.counts), tuple(lower(exp_q)), mi.qtype, mi.qclass, tuple(exp))
     if got != want:
         return "renamed message differs from the specified one"
+    # the question name is written first and never as a pointer into a record: where it is rewritten, the part that
+    # replaces the source is the target as given (its spelling, not the source's)
+    lq, ls = lower(mi.qname), lower(source)
+    q_matches = (sfx and len(lq) >= len(ls) and lq[len(lq) - len(ls):] == ls) or (not sfx and lq == ls)
+    if q_matches and [bytes(x) for x in mo.qname] != [bytes(x) for x in exp_q]:
+        if True:
+            return "the rewritten question name is not spelled as the target given (%r, expected %r)" % (b".".join(bytes(x) for x in mo.qname), b".".join(bytes(x) for x in exp_q))
     return None
+
+
+def oracle_c07(c, a, b):
+    w = c.split(" ")
+    if w[0] != "rename":
+        return None
+    p, traw, sraw, sfx = _hex(w[1]), _hex(w[2]), _hex(w[3]), w[4] == "1"
+    kind = outcome(a)
+    o = _hex(a.split(" ")[1]) if kind == "ok" else None
+    r = rename_rules(p, traw, sraw, sfx, kind, o)
+    if r and kind not in ("ok", "err"):
+        return "rename did not return normally: %s" % a[:60]
+    return r
+
+
+def _rename_hook(before_bytes, op, res, after_bytes):
+    """the object-level rename of a script step, judged by the same rules"""
+    if res.startswith("err:"):
+        kind = "err"
+    elif res == "ok":
+        kind = "ok"
+    else:
+        return None
+    return rename_rules(before_bytes, _hex(op[1]), _hex(op[2]), op[3] == "1", kind, after_bytes if kind == "ok" else None, what="object-level rename")
+
+
+oracle_script.rename_hook = _rename_hook
 
 
 def _script_oracle(props, walk=False):
@@ -469,6 +499,18 @@ def oracle_c15(c, a, b):
         m = re.match(r"ret=0 len=(\d+) bytes=(\S+)", piece)
         if m and int(m.group(1)) * 2 != len(m.group(2)) and not (m.group(1) == "0"):
             return "raw_packet length does not match the bytes copied"
+    # add_to_*: a record text the grammar accepts, whose record fits, is inserted (judged on the first operation of a
+    # script over a small packet, where the size before the call is the input's)
+    ops0 = [o.strip() for o in re.sub(r" #\S*$", "", " ".join(w[2:])).split(" ; ")]
+    first = ops0[0].split(" ") if ops0 else []
+    if first and first[0] in ("adda", "addn", "addr") and len(first) == 2 and len(w[1]) // 2 < 600:
+        try:
+            wire = refsynth.synth(_hex(first[1]))
+        except (refsynth.Outside, refsynth.Refused):
+            wire = None
+        piece0 = halves[0].split(" ; ")[0]
+        if wire is not None and len(wire) < 7000 and piece0.startswith("ret=-1"):
+            return "%s refused a record text the grammar accepts and whose record fits (%d characters of text, %d bytes of record): %s" % (first[0], len(first[1]) // 2, len(wire), piece0)
     for m in re.finditer(r"ip=([0-9a-f]*)/(\d+)", halves[0]):
         n = int(m.group(2))
         if n not in (4, 16) or len(m.group(1)) != 2 * n:
@@ -677,7 +719,7 @@ PROPS = {
     },
     "C11": {
         "module": "DnsModel.Theorems.C11", "theorems": ["Dns.C11.walk_delete", "Dns.C11.second_delete", "Dns.C11.delete_void_untouched", "Dns.C11.emptied_absent", "Dns.C11.still_accepted", "Dns.C11.plain_of_accepted", "Dns.C11.first_delete", "Dns.C11.walk_delete_parsed", "Dns.C11.walk_delete_skipping_opt", "Dns.C11.walk_delete_parsed_skipping_opt", "Dns.C11.opt_once", "Dns.delWalkSkip_fresh_refines", "Dns.delWalkSkip_refines", "Dns.delWalk_refines", "Dns.delWalk_fresh_refines", "Dns.PlainObj.delete_at", "Dns.absWalk_terminates", "Dns.absWalk_sublist", "Dns.absWalk_deleted_gone", "Dns.absWalk_yields_survivors", "Dns.absWalk_perm"],
-        "families": [{"name": "delete-walks", "quick": 0, "thorough": 0, "fixed": True}],
+        "families": [{"name": "delete-walks", "quick": 0, "thorough": 0, "fixed": True}, {"name": "walk-huge-quick", "quick": 0, "thorough": 0, "fixed": True, "only": "quick"}, {"name": "walk-huge-full", "quick": 0, "thorough": 0, "fixed": True, "only": "thorough"}],
         "oracle": oracle_c11, "nontrivial": lambda c, a: "delete" in c, "shrink": False,
         "rule": "every subset of the records of a section of size 0..5 deleted from within one walk, for the three record sections and the question, pointer-free and compressed, OPT absent/first/last; walks over all four sections in one script in all 24 orders (question deleted first / last / in between), a question-less packet built from empty(); exhaustive in both tiers",
         "level": "proof",
